@@ -161,6 +161,8 @@ def bounded(tier, seed):
             continue
         structs.append((os.path.basename(path), s))
         structs.append((os.path.basename(path) + "|squeezed", squeeze(s, rng)))
+        # residues that differ in the insertion code only (N, N^A ...) and clash with each other
+        structs.append((os.path.basename(path) + "|icode-twins|squeezed", squeeze(G.icode_twins(s, rng), rng)))
     for tag, s in structs:
         for opts in OPTS:
             ev += 1
